@@ -10,7 +10,7 @@ A *case* is a JSON object {"impls": [...], "disps": [...], "ops": [...]} in the 
 operation language below; `to_model` lowers it to the driver's language (see DrvIface.lean).
 
 py-level ops
-  ["new", d, disp, dflt_impl|None, cb|None]
+  ["new", d, disp, dflt_impl|None, cb|None]          + optional sixth element: the id of a row of the spelling table
   ["reg", d, alias, i]
   ["ovl", [[d, [alias...]], ...], i]                 targets in application order (innermost first)
   ["setd", d, disp]
@@ -36,6 +36,22 @@ abstract dataset, the default of an outer switch, the dispatch of an outer switc
 implementation registered on another dataset -- each over the forms a computed dispatch expression can take
 (dataset, nocache, lift, >>, apply, bind, a dataset over a failing dataset, a >> chain, a pipeline step).
 Oracle: default implementation when there is one, otherwise an EvaluationError (never a bare exception).
+
+Directed family "the spelling of a dataset" (every run, both tiers): `spelling_table()` lists the public ways of
+building one dataset from the factories -- dataset(f, **kw), dataset(**kw)(f), dataset(None, **kw)(f), @dataset then
+set_dispatch / set_cache, .nocache, .where, .update, .wrap, abstractdataset in the same forms, factories configured in
+several steps, a factory bound to a name and reused, every keyword also given as None / empty, `abstract` given
+explicitly on the factory that agrees and on the one that does not, a later explicit value replacing an earlier one.
+A spelling does not change what an operation means: the model is told ["new", d, disp, dflt, cb] and `spell_emit`
+folds the steps by "the last explicit value wins, None or omitted inherits", refusing a row whose folded meaning is
+not the operation's.  Every row is iterated as a directed history (a dataset with a default implementation and an
+abstract one built by it: registered / unregistered / undeterminable dispatch value, before and after a late
+registration), and every dataset of the exhaustive and random streams (also the @dataset / @abstractdataset members
+of interfaces and the dispatching datasets used as implementations) gets a row by its number (`annotate`: no random
+stream consumed, written into the case so that a replay rebuilds it).  Oracle: the existing one, plus `is_abstract` /
+`default` as declared and the cache that was given (DECL), and the other datasets of a reused factory (DECOY).
+Keyword combinations that labrea does not treat by that reading (options={} / default_options={} on a factory that
+has some, dispatch='') are NOT in the violation oracle: `run_probe` records what they do in the evidence.
 """
 import sys
 from pathlib import Path
@@ -57,6 +73,8 @@ SPEC = PropSpec(
         "correspondence InterfaceSM <-> labrea on generated histories (value / failure class, hit-or-miss, "
         "fingerprint of every evaluation; outcome of every definition)",
         "harness code generator and runner (harness/props/C07.py)",
+        "the reading of the factory keywords used to tell the model what a spelled dataset is: the last explicit "
+        "value wins, a keyword omitted or None inherits the factory's (spell_emit)",
         "json.dumps injective on the float-free option values used",
     ],
     assumptions=[
@@ -65,7 +83,9 @@ SPEC = PropSpec(
         "dispatch values are hashable scalars or tuples of scalars (an unhashable dispatch value raises "
         "TypeError from `key in lookup` regardless of the default; not generated)",
         "no with_options/with_default_options derivatives (the only other holders of a dataset's "
-        "Overloaded object and cache), no effects, MemoryCache only",
+        "Overloaded object and cache), no effects, MemoryCache only; the factory keywords options / "
+        "default_options / effects / defaults only with their empty or None value (defaults / where also with the "
+        "parameter defaults of the function itself)",
         "no_cross_dispatch needs an unchanged, key-deterministic dispatch expression: set_dispatch on a "
         "dataset that already holds entries is known finding F24 (exercised in a separate stream)",
         "interface_consistent assumes members are not re-dispatched behind the interface's back "
@@ -149,19 +169,22 @@ def to_model(case):
     for op in case["ops"]:
         if op[0] == "iface":
             members = []
-            for name, d, kind, dflt, cb in op[3]:
+            for name, d, kind, dflt, cb in (m[:5] for m in op[3]):
                 if kind != "ext":
                     ops.append(["new", d, ["missing"], dflt, cb])
             # annotation-only members are set on the class after its body: they come last in
             # the interface's __dict__, which is the order Implementation.__init__ walks
-            for name, d, kind, dflt, cb in sorted(op[3], key=lambda m: m[2] == "ann"):
+            for name, d, kind, dflt, cb in (m[:5] for m in sorted(op[3], key=lambda m: m[2] == "ann")):
                 members.append([name, d])
             ops.append(["iface", op[1], op[2], members])
+        elif op[0] == "new":
+            ops.append(op[:5])        # (the spelling of the dataset is not the model's business)
         else:
             ops.append(op)
     # a failing dispatch expression ("exc") is, for the model, a dispatch dataset whose key is absent
     disps = [{"key": sp["key"], "map": sp["map"]} for sp in case["disps"]]
-    return {"impls": case["impls"], "disps": disps, "ops": ops}
+    impls = [{k_: v for k_, v in sp.items() if k_ != "sp"} for sp in case["impls"]]
+    return {"impls": impls, "disps": disps, "ops": ops}
 
 
 # --------------------------------------------------------------------------------------------
@@ -332,6 +355,379 @@ def leaf_def(name, leaf, decorators, ind):
     return lines
 
 
+# --------------------------------------------------------------------------------------------
+# the spelling table: every public way of building ONE dataset out of the dataset factories
+#
+# A "new" operation may carry a sixth element, the id of a spelling; the dataset is then built that way.  The
+# meaning of the operation does not change (the model is told ["new", d, disp, dflt, cb] whatever the spelling):
+# for every keyword the LAST EXPLICIT value wins, a keyword that is omitted or given as None inherits the
+# factory's.  `spell_emit` folds the steps of a spelling by exactly that rule and refuses a spelling whose
+# folded meaning is not the target of the operation, so the table cannot drift from what it claims.
+#
+# spelling = {"id", "base", "steps", "final", "post", "reuse"}
+#   base  : "same" | "opp" (+ ".nocache"): `dataset` for a dataset with a default implementation and
+#           `abstractdataset` for an abstract one ("same"), or the other way round ("opp": needs an explicit A=)
+#   steps : keyword calls applied to the base, left to right; "" is "no call at all", "-" an empty call `()`;
+#           first token ".nocache" / ".where" / ".update" for those members, "None" for `factory(None, ...)`
+#   tokens: D dispatch (as the py-level op spells it: key string / Option / dataset)   Do dispatch as an Evaluatable
+#           D? a wrong dispatch (to be replaced later)   D0 dispatch=None
+#           C cache=LogCache(name)   Cf cache=<callable returning it>   C? a wrong cache   C0 cache=None
+#           B callback   B? a wrong callback   B0 callback=None
+#           A= abstract=<what the operation says>   A! abstract=<the opposite>   A0 abstract=None
+#           O0 options={}  O00 options=None  P0 default_options={}  P00 =None  E0 effects=[]  E00 =None
+#           F0 defaults={}  F00 defaults=None   W defaults=<the parameter defaults of the function, which then has none>
+#   final : "deco" decorator | "call" factory(f) | "with" factory(f, <last step>) | "wrap" factory.wrap(f)
+#   post  : "setd" set_dispatch afterwards | "setc" set_cache(cache) | "setcf" set_cache(callable)
+#   reuse : the factory is bound to a name and also makes one more dataset before and one after (own caches),
+#           which must come out as the factory's own keywords say
+
+
+class Inapplicable(Exception):
+    pass
+
+
+def _sp(id_, base, steps, final="deco", post=(), reuse=False):
+    return {"id": id_, "base": base, "steps": list(steps), "final": final, "post": list(post), "reuse": reuse}
+
+
+def spelling_table():
+    t = []
+    ALL = "D C B"
+    # one call, the three syntaxes; the definition first, last, or after an explicit None
+    t.append(_sp("@F(kw)", "same", [ALL]))
+    t.append(_sp("F(f, kw)", "same", [ALL], "with"))
+    t.append(_sp("F(kw)(f)", "same", [ALL], "call"))
+    t.append(_sp("F(None, kw)(f)", "same", ["None " + ALL], "call"))
+    t.append(_sp("F()(kw)(f)", "same", ["-", ALL], "call"))
+    t.append(_sp("F(kw).wrap(f)", "same", [ALL], "wrap"))
+    t.append(_sp("F.update(kw)(f)", "same", [".update " + ALL], "call"))
+    t.append(_sp("@F(kw, dispatch as Evaluatable)", "same", ["Do C B"]))
+    t.append(_sp("@F(kw, cache as callable)", "same", ["D Cf B"]))
+    # configured after the fact
+    t.append(_sp("@F; set_dispatch; set_cache", "same", ["B"], post=["setd", "setc"]))
+    t.append(_sp("@F bare; set_dispatch; set_cache(callable)", "same", [""], post=["setd", "setcf"]))
+    t.append(_sp("@F(cache, callback); set_dispatch", "same", ["C B"], post=["setd"]))
+    t.append(_sp("@F(wrong dispatch, ...); set_dispatch", "same", ["D? C B"], post=["setd"]))
+    t.append(_sp("F(f, dispatch, callback); set_cache", "same", ["D B"], "with", post=["setc"]))
+    # nocache
+    t.append(_sp("@F.nocache(kw, cache)", "same.nocache", [ALL]))
+    t.append(_sp("@F.nocache(dispatch, callback); set_cache", "same.nocache", ["D B"], post=["setc"]))
+    t.append(_sp("F(kw, wrong cache).nocache(f, cache)", "same", ["D C? B", ".nocache", "C"], "with"))
+    t.append(_sp("F.nocache.nocache(kw)(f)", "same.nocache", [".nocache", ALL], "call"))
+    # abstract given explicitly: on the factory that already agrees, and on the one that does not
+    t.append(_sp("@F(kw, abstract=same)", "same", [ALL + " A="]))
+    t.append(_sp("@G(kw, abstract=other)", "opp", [ALL + " A="]))
+    t.append(_sp("G(f, kw, abstract=other)", "opp", [ALL + " A="], "with"))
+    t.append(_sp("G(kw, abstract=other)(f)", "opp", [ALL + " A="], "call"))
+    t.append(_sp("G(None, kw, abstract=other)(f)", "opp", ["None " + ALL + " A="], "call"))
+    t.append(_sp("G(kw)(f, abstract=other)", "opp", [ALL, "A="], "with"))
+    t.append(_sp("@G(kw)(abstract=other)", "opp", [ALL, "A="]))
+    t.append(_sp("@G(abstract=other)(kw)", "opp", ["A=", ALL]))
+    t.append(_sp("@G(abstract=other)(kw, abstract=None)", "opp", ["A=", ALL + " A0"]))
+    t.append(_sp("G(abstract=other)(f, kw)", "opp", ["A=", ALL], "with"))
+    t.append(_sp("@F(abstract=wrong)(kw, abstract=right)", "same", ["A!", ALL + " A="]))
+    t.append(_sp("F(kw, abstract=wrong)(f, abstract=right)", "same", [ALL + " A!", "A="], "with"))
+    t.append(_sp("F(abstract=wrong)(abstract=right)(abstract=wrong)(abstract=right)(kw)(f)", "same",
+                 ["A!", "A=", "A!", "A=", ALL], "call"))
+    t.append(_sp("G(abstract=other, dispatch)(cache)(callback)(f)", "opp", ["A= D", "C", "B"], "call"))
+    t.append(_sp("G.update(kw, abstract=other)(f)", "opp", [".update " + ALL + " A="], "call"))
+    t.append(_sp("G(kw, abstract=other).wrap(f)", "opp", [ALL + " A="], "wrap"))
+    t.append(_sp("@G.nocache(kw, abstract=other)", "opp.nocache", [ALL + " A="]))
+    t.append(_sp("G(f, cache, callback, abstract=other); set_dispatch", "opp", ["C B A="], "with", post=["setd"]))
+    # every keyword given with its "off" value: together with the real ones, after them, before them
+    OFF = "O0 P0 E0 F0"
+    NONE = "O00 P00 E00 F00"
+    t.append(_sp("@F(kw, abstract=same, options={}, default_options={}, effects=[], defaults={})", "same",
+                 [ALL + " A= " + OFF]))
+    t.append(_sp("F(f, kw, options=None, default_options=None, effects=None, defaults=None, abstract=None)", "same",
+                 [ALL + " A0 " + NONE], "with"))
+    t.append(_sp("@F(kw)(every keyword None or empty)", "same", [ALL, "D0 C0 B0 A0 " + OFF]))
+    t.append(_sp("F(kw)(f, every keyword None)", "same", [ALL, "D0 C0 B0 A0 " + NONE], "with"))
+    t.append(_sp("@F(every keyword None or empty)(kw)", "same", ["D0 C0 B0 A0 " + OFF, ALL]))
+    t.append(_sp("@G(kw, abstract=other)(every keyword None or empty)", "opp", [ALL + " A=", "D0 C0 B0 A0 " + OFF]))
+    t.append(_sp("G(every keyword None)(f, kw, abstract=other)", "opp", ["D0 C0 B0 A0 " + NONE, ALL + " A="], "with"))
+    t.append(_sp("@F(dispatch=None, cache)(dispatch, callback=None)(callback, cache=None)", "same",
+                 ["D0 C", "D B0", "B C0"]))
+    # a later explicit value replaces an earlier one
+    t.append(_sp("@F(wrong dispatch)(kw)", "same", ["D?", ALL]))
+    t.append(_sp("F(wrong dispatch)(f, kw, dispatch as Evaluatable)", "same", ["D?", "Do C B"], "with"))
+    t.append(_sp("@F(wrong cache)(kw)", "same", ["C?", ALL]))
+    t.append(_sp("F(wrong callback)(kw)(f)", "same", ["B?", ALL], "call"))
+    t.append(_sp("F(wrong dispatch, wrong cache, wrong callback, abstract=wrong)(f, kw, abstract=right)", "same",
+                 ["D? C? B? A!", ALL + " A="], "with"))
+    t.append(_sp("@G(wrong dispatch, wrong cache)(kw, abstract=other)(all None)", "opp",
+                 ["D? C?", ALL + " A=", "D0 C0 B0 A0"]))
+    # the parameter defaults through defaults= / where
+    t.append(_sp("@F(kw, defaults=...)", "same", [ALL + " W"]))
+    t.append(_sp("F.where(...)(f, kw)", "same", [".where", ALL], "with"))
+    t.append(_sp("@F(kw).where(...)", "same", [ALL, ".where"]))
+    t.append(_sp("G(abstract=other).where(...)(kw)(f)", "opp", ["A=", ".where", ALL], "call"))
+    # one factory, several datasets
+    t.append(_sp("fac = F(dispatch, callback); @fac(cache)  [fac reused]", "same", ["D B", "C"], "with", reuse=True))
+    t.append(_sp("fac = F(dispatch, callback, cache as callable); @fac  [fac reused]", "same", ["D Cf B"], reuse=True))
+    t.append(_sp("fac = G(dispatch, callback); fac(f, cache, abstract=other)  [fac reused]", "opp",
+                 ["D B", "C A="], "with", reuse=True))
+    t.append(_sp("fac = G(dispatch)(callback); @fac(abstract=other, cache)  [fac reused]", "opp",
+                 ["D", "B", "A= C"], "with", reuse=True))
+    t.append(_sp("fac = G(abstract=other)(kw, cache as callable); fac(f)  [fac reused]", "opp",
+                 ["A=", "D Cf B"], "call", reuse=True))
+    t.append(_sp("fac = F(kw, cache as callable); fac(f, abstract=same)  [fac reused]", "same",
+                 ["D Cf B", "A="], "with", reuse=True))
+    assert len({s["id"] for s in t}) == len(t)
+    return t
+
+
+SPELLINGS = spelling_table()
+SPELL = {s["id"]: s for s in SPELLINGS}
+
+
+def spell_emit(sp, name, disp, abstract, cb, leaf=None, expr=None, k=0, cache=True):
+    """lines building dataset `name` (dispatch `disp`, abstract or not, callback cb) by spelling `sp`.
+    leaf: spec of the function to define (default implementation) | expr: an Evaluatable expression to wrap |
+    neither: abstract, the function is a placeholder.  cache=False: a dataset that is given no cache (nested
+    implementations, interface members) -- the cache keywords of the spelling are left out.
+    Raises Inapplicable / AssertionError (table error)."""
+    has_disp = disp[0] != "missing"
+    if not cache and (sp["reuse"] or "nocache" in sp["base"] or any(
+            tk in (".nocache", "C?") for s_ in sp["steps"] for tk in s_.split()) or set(sp["post"]) & {"setc", "setcf"}):
+        raise Inapplicable(sp["id"])
+    if sp["post"] and "setd" in sp["post"] and not has_disp:
+        raise Inapplicable(sp["id"])
+    lines = []
+    base = sp["base"].split(".")
+    f_abs = abstract if base[0] == "same" else not abstract
+    st = {"disp": None, "cache": None, "cb": None, "abstract": f_abs}
+    e = "abstractdataset" if f_abs else "dataset"
+    if len(base) > 1:
+        e += ".nocache"
+        st["cache"] = "nocache"
+    cache_src = "LogCache(%r)" % name
+    wdefaults = None
+    if leaf is not None:
+        wdefaults = []
+        for n, (key, dd) in enumerate(leaf["reads"]):
+            wdefaults.append(("a%d" % n, "Option(%r)" % key if dd is None else "Option(%r, %s)" % (key, py(dd["d"]))))
+    bare_params = False
+
+    def kw_of(tokens):
+        nonlocal bare_params
+        kws = []
+        for tk in tokens:
+            if tk == "D":
+                if has_disp:
+                    kws.append("dispatch=" + disp_src(disp)); st["disp"] = "right"
+            elif tk == "Do":
+                if has_disp:
+                    kws.append("dispatch=" + disp_src(disp, True)); st["disp"] = "right"
+            elif tk == "D?":
+                kws.append("dispatch='K9'"); st["disp"] = "wrong"
+            elif tk == "D0":
+                kws.append("dispatch=None")
+            elif tk in ("C", "Cf") and not cache:
+                pass
+            elif tk == "C":
+                kws.append("cache=" + cache_src); st["cache"] = "right"
+            elif tk == "Cf":
+                kws.append("cache=(lambda: %s)" % cache_src); st["cache"] = "right"
+            elif tk == "C?":
+                kws.append("cache=LogCache('wrong')"); st["cache"] = "wrong"
+            elif tk == "C0":
+                kws.append("cache=None")
+            elif tk == "B":
+                if cb is not None:
+                    kws.append("callback=cb%d" % cb); st["cb"] = "right"
+            elif tk == "B?":
+                kws.append("callback=_cbwrong"); st["cb"] = "wrong"
+            elif tk == "B0":
+                kws.append("callback=None")
+            elif tk in ("A=", "A!"):
+                v = abstract if tk == "A=" else not abstract
+                kws.append("abstract=%r" % v); st["abstract"] = v
+            elif tk == "A0":
+                kws.append("abstract=None")
+            elif tk in ("O0", "O00", "P0", "P00", "E0", "E00", "F0", "F00"):
+                kwn = {"O": "options", "P": "default_options", "E": "effects", "F": "defaults"}[tk[0]]
+                off = "None" if tk.endswith("00") else ("[]" if tk[0] == "E" else "{}")
+                kws.append("%s=%s" % (kwn, off))
+            elif tk == "W":
+                if wdefaults is not None:
+                    kws.append("defaults={%s}" % ", ".join("%r: %s" % (a, s) for a, s in wdefaults))
+                    bare_params = True
+            else:
+                raise AssertionError("unknown token %r in spelling %r" % (tk, sp["id"]))
+        return kws
+
+    steps = list(sp["steps"])
+    final_kw = None
+    last = steps.pop() if sp["final"] == "with" else None
+    for s in steps:
+        toks = s.split()
+        if s == "":
+            continue
+        if s == "-":
+            e += "()"
+        elif toks[0] == ".nocache":
+            assert len(toks) == 1
+            e += ".nocache"; st["cache"] = "nocache"
+        elif toks[0] == ".where":
+            assert len(toks) == 1
+            if wdefaults is not None:
+                e += ".where(%s)" % ", ".join("%s=%s" % (a, s_) for a, s_ in wdefaults)
+                bare_params = True
+            else:
+                e += ".where()"
+        elif toks[0] == ".update":
+            e += ".update(%s)" % ", ".join(kw_of(toks[1:]))
+        elif toks[0] == "None":
+            e += "(%s)" % ", ".join(["None"] + kw_of(toks[1:]))
+        else:
+            e += "(%s)" % ", ".join(kw_of(toks))
+    fac_abstract = st["abstract"]          # what the factory itself says (the datasets of `reuse`)
+    if sp["reuse"]:
+        lines += ["_F%s = %s" % (name, e),
+                  "def _decoy_%s_a():" % name, "    return ('decoy', %r)" % name,
+                  "DECOY(_F%s(_decoy_%s_a, cache=MemoryCache()), %r, %d)" % (name, name, fac_abstract, k)]
+        e = "_F" + name
+    if last is not None:
+        assert last not in ("", "-") and last.split()[0][0] != "." and last.split()[0] != "None"
+        final_kw = kw_of(last.split())
+    # the definition and the final call
+    if expr is not None:
+        arg = expr
+    elif sp["final"] == "deco":
+        arg = None
+    else:
+        arg = "_fn_" + name
+    fname = name if arg is None else arg
+    if expr is None:
+        deco = [e] if arg is None else []
+        if leaf is None:
+            body = ["@" + d_ for d_ in deco] + ["def %s():" % fname, "    pass"]
+        elif bare_params:       # the parameters get their defaults from defaults= / where
+            sig = ", ".join("a%d" % n for n in range(len(leaf["reads"])))
+            body = ["@" + d_ for d_ in deco] + [
+                "def %s(%s):" % (fname, sig),
+                "    COUNT[%r] = COUNT.get(%r, 0) + 1" % (leaf["tag"], leaf["tag"]),
+                "    return (%r,%s)" % (leaf["tag"], "".join(" a%d," % n for n in range(len(leaf["reads"]))))]
+        else:
+            body = leaf_def(fname, leaf, deco, "")
+        lines += body
+    if arg is not None:
+        if sp["final"] == "wrap":
+            lines.append("%s = %s.wrap(%s)" % (name, e, arg))
+        elif final_kw is not None:
+            lines.append("%s = %s(%s)" % (name, e, ", ".join([arg] + final_kw)))
+        else:
+            lines.append("%s = %s(%s)" % (name, e, arg))
+    for p in sp["post"]:
+        if p == "setd":
+            lines.append("%s.set_dispatch(%s)" % (name, disp_src(disp, True))); st["disp"] = "right"
+        elif p == "setc":
+            lines.append("%s.set_cache(%s)" % (name, cache_src)); st["cache"] = "right"
+        elif p == "setcf":
+            lines.append("%s.set_cache(lambda: %s)" % (name, cache_src)); st["cache"] = "right"
+        else:
+            raise AssertionError(p)
+    if sp["reuse"]:
+        lines += ["def _decoy_%s_b():" % name, "    return ('decoy', %r)" % name,
+                  "DECOY(_F%s(_decoy_%s_b, cache=MemoryCache()), %r, %d)" % (name, name, fac_abstract, k)]
+    want = {"disp": "right" if has_disp else None, "cache": "right" if cache else None, "cb": "right" if cb is not None else None,
+            "abstract": abstract}
+    if st != want:      # (a spelling without a callback keyword cannot make a dataset with a callback, ...)
+        raise Inapplicable("spelling %r folds to %r, not to the operation's %r" % (sp["id"], st, want))
+    return lines
+
+
+def _applicability():
+    """(has dispatch, has callback) -> ids of the spellings whose folded meaning is such a dataset; a spelling
+    applies to the abstract and to the non-abstract dataset alike, and every spelling applies somewhere"""
+    out = {}
+    for hd in (True, False):
+        for hc in (True, False):
+            ids = []
+            for s in SPELLINGS:
+                ok = []
+                for ab in (False, True):
+                    try:
+                        spell_emit(s, "d0", ["key", "K"] if hd else ["missing"], ab, 1 if hc else None,
+                                   leaf=None if ab else {"tag": "t", "reads": [["A", None]]})
+                        ok.append(True)
+                    except Inapplicable:
+                        ok.append(False)
+                assert ok[0] == ok[1], "spelling %r applies to one abstractness only" % s["id"]
+                if ok[0]:
+                    ids.append(s["id"])
+            out[(hd, hc)] = ids
+    missing = [s["id"] for s in SPELLINGS if not any(s["id"] in ids for ids in out.values())]
+    assert not missing, "spellings whose folded meaning is no dataset at all: %r" % missing
+    return out
+
+
+APPLICABLE = _applicability()
+
+
+def spell_applicable(sp, has_disp, has_cb):
+    return sp["id"] in APPLICABLE[(has_disp, has_cb)]
+
+
+def spelling_for(has_disp, has_cb, salt):
+    """the spelling a dataset gets: the salt-th of those applicable to it (no random stream consumed)"""
+    app = APPLICABLE[(has_disp, has_cb)]
+    return app[salt % len(app)]
+
+
+def _applicability_nocache():
+    """the same for datasets that get no cache keyword: nested dispatching implementations ("sw": any form that
+    needs no DECOY helper) and interface members ("member": decorator forms only, no dispatch of their own)"""
+    out = {"sw": {}, "member": {}}
+    for hc in (True, False):
+        for kind, hd in (("sw", True), ("member", False)):
+            ids = []
+            for s in SPELLINGS:
+                if kind == "member" and (s["final"] != "deco" or s["post"]):
+                    continue
+                try:
+                    for ab in (False, True):
+                        spell_emit(s, "m", ["key", "K"] if hd else ["missing"], ab, 1 if hc else None,
+                                   leaf=None if ab else {"tag": "t", "reads": []}, cache=False)
+                    ids.append(s["id"])
+                except Inapplicable:
+                    pass
+            assert len(ids) > 10
+            out[kind][hc] = ids
+    return out
+
+
+APPLICABLE_NOCACHE = _applicability_nocache()
+
+
+def annotate(case, n, seed):
+    """give every dataset of program number n that has none yet its spelling, by its number: the sixth element of a
+    "new" operation / of an interface member of kind "abs" or "ds", the "sp" entry of a nested dispatching
+    implementation (no random stream consumed; the history itself is what it was)"""
+    ops = []
+    base = seed * 17 + n * 7
+    for op in case["ops"]:
+        if op[0] == "new" and len(op) == 5:
+            op = op + [spelling_for(op[2][0] != "missing", op[4] is not None, base + op[1] * 3)]
+        elif op[0] == "iface":
+            ms = []
+            for m in op[3]:
+                if m[2] in ("abs", "ds") and len(m) == 5:
+                    app = APPLICABLE_NOCACHE["member"][m[4] is not None]
+                    m = m + [app[(base + m[1] * 3) % len(app)]]
+                ms.append(m)
+            op = op[:3] + [ms]
+        ops.append(op)
+    impls = []
+    for i, sp in enumerate(case["impls"]):
+        if sp["k"] == "sw" and "sp" not in sp:
+            app = APPLICABLE_NOCACHE["sw"][sp.get("cb") is not None]
+            sp = dict(sp, sp=app[(base + i * 5 + 1) % len(app)])
+        impls.append(sp)
+    return dict(case, ops=ops, impls=impls)
+
+
 class Gen:
     """generates the program for one case"""
 
@@ -372,7 +768,11 @@ class Gen:
             kw = "dispatch=%r" % sp["key"]
             if sp.get("cb") is not None:
                 kw += ", callback=cb%d" % sp["cb"]
-            if sp.get("dflt") is None:
+            if sp.get("sp") is not None:
+                ls = spell_emit(SPELL[sp["sp"]], name, ["key", sp["key"]], sp.get("dflt") is None, sp.get("cb"),
+                                leaf=sp.get("dflt"), cache=False)
+                self.emit(*[ind + l for l in ls])
+            elif sp.get("dflt") is None:
                 self.emit(ind + "@abstractdataset(%s)" % kw, ind + "def %s():" % name, ind + "    pass")
             else:
                 self.emit(*leaf_def(name, sp["dflt"], ["dataset(%s)" % kw], ind))
@@ -385,7 +785,39 @@ class Gen:
 
     # ---- operations
 
-    def op_new(self, op):
+    def default_of(self, name, dflt):
+        """impl `dflt` was defined as the body of dataset `name`: later operations reach it as name.default -- or,
+        should the dataset have come out abstract (DECL reports that), as a separately built object"""
+        self.emit("if %s.is_abstract:" % name)
+        sub = Gen(self.case)
+        sub.expr = dict(self.expr)
+        sub.expr.pop(dflt, None)
+        nm = sub.materialise(dflt, "    ")
+        self.emit(*sub.lines)
+        self.emit("    _dfl_%s = %s" % (name, nm), "else:", "    _dfl_%s = %s.default" % (name, name))
+        self.expr[dflt] = "_dfl_" + name
+
+    def op_new_spelled(self, op, k):
+        _, d, disp, dflt, cb, sid = op
+        name = "d%d" % d
+        sp = SPELL[sid]
+        decl = "DECL(%s, %r, %r, %d)" % (name, name, dflt is None, k)
+        if dflt is None:
+            self.emit(*spell_emit(sp, name, disp, True, cb, k=k))
+            self.emit(decl)
+        elif dflt not in self.expr and self.impls[dflt]["k"] == "leaf":
+            self.emit(*spell_emit(sp, name, disp, False, cb, leaf=self.impls[dflt], k=k))
+            self.emit(decl)
+            self.default_of(name, dflt)
+        else:
+            e = self.materialise(dflt)
+            self.emit(*spell_emit(sp, name, disp, False, cb, expr=e, k=k))
+            self.emit(decl)
+        self.emit("OBS.append('ok')")
+
+    def op_new(self, op, k=0):
+        if len(op) > 5:
+            return self.op_new_spelled(op, k)
         _, d, disp, dflt, cb = op
         name = "d%d" % d
         kws = []
@@ -395,14 +827,16 @@ class Gen:
         if cb is not None:
             kws.append("callback=cb%d" % cb)
         kw = ", ".join(kws)
+        decl = "DECL(%s, %r, %r, %d)" % (name, name, dflt is None, k)
         if dflt is None:
-            self.emit("@abstractdataset(%s)" % kw, "def %s():" % name, "    pass")
+            self.emit("@abstractdataset(%s)" % kw, "def %s():" % name, "    pass", decl)
         elif dflt not in self.expr and self.impls[dflt]["k"] == "leaf":
             self.emit(*leaf_def(name, self.impls[dflt], ["dataset(%s)" % kw], ""))
-            self.expr[dflt] = name + ".default"
+            self.emit(decl)
+            self.default_of(name, dflt)
         else:
             e = self.materialise(dflt)
-            self.emit("%s = dataset(%s)(%s)" % (name, kw, e))
+            self.emit("%s = dataset(%s)(%s)" % (name, kw, e), decl)
         self.emit("OBS.append('ok')")
 
     def op_reg(self, op):
@@ -445,9 +879,18 @@ class Gen:
         dsrc = disp_src(disp)
         body = []
         pre = []
+        spelled = {m[0]: m[5] for m in members if len(m) > 5}
+        members = [m[:5] for m in members]
         for mname, d, kind, dflt, cb in members:
             if kind == "ann":
                 body.append("    %s: int" % mname)
+            elif kind in ("abs", "ds") and mname in spelled:
+                ls = spell_emit(SPELL[spelled[mname]], mname, ["missing"], kind == "abs", cb,
+                                leaf=None if kind == "abs" else self.impls[dflt], cache=False)
+                assert ls[0].startswith("@") and ls[1].startswith("def ")
+                body += ["    @staticmethod"] + ["    " + l for l in ls]
+                if kind == "ds":
+                    self.expr[dflt] = "%s.%s.default" % (name, mname)
             elif kind == "abs":
                 body += ["    @staticmethod", "    @abstractdataset", "    def %s():" % mname, "        pass"]
             elif kind == "fn":
@@ -478,7 +921,10 @@ class Gen:
         for mname, d, kind, dflt, cb in members:
             if kind != "ext":
                 self.emit("d%d = %s.%s" % (d, name, mname), "d%d.set_cache(LogCache('d%d'))" % (d, d),
-                          "OBS.append('ok')")
+                          "DECL(d%d, 'd%d', %r, OPIDX[0])" % (d, d, dflt is None))
+                if kind in ("fn", "ds"):
+                    self.default_of("d%d" % d, dflt)
+                self.emit("OBS.append('ok')")
         self.emit("IFACES[%r] = (%s, %r)" % (name, name, [m[0] for m in members]))
         self.emit("OBS.append('ok')")
 
@@ -553,7 +999,7 @@ class Gen:
             self.emit("OPIDX[0] = %d" % k)
             kind = op[0]
             if kind == "new":
-                self.op_new(op)
+                self.op_new(op, k)
             elif kind == "reg":
                 self.op_reg(op)
             elif kind == "ovl":
@@ -671,7 +1117,7 @@ class Ref:
             r["version"] += 1
             r["setd_ops"].append(k)
         elif kind == "iface":
-            for name, d, mk, dflt, cb in op[3]:
+            for name, d, mk, dflt, cb in (m[:5] for m in op[3]):
                 if mk != "ext":
                     self.new(d, ["missing"], dflt, cb)
                 r = self.ds[d]
@@ -728,6 +1174,9 @@ from labrea.conditional import SwitchError, CaseWhenError
 from labrea.dataset import Dataset
 
 _SRC = {}
+
+def _cbwrong(v):
+    return ("WRONG-CALLBACK", v)
 
 def DEPTH():
     n, f = 0, sys._getframe()
@@ -898,7 +1347,26 @@ def run_case(case, want_src=False):
         if want != got:
             fail(k, "impl-accept-mismatch", observed=got, expected=want)
 
-    ns.update(EVAL=EVAL, CHECK_SNAP=CHECK_SNAP)
+    def DECL(ds, name, abstract, k):
+        """the dataset says itself what it was declared to be, and holds the cache it was given"""
+        if ds.is_abstract is not abstract or (repr(ds.default) == "MISSING") is not abstract:
+            fail(k, "is-abstract", dataset=name, observed=ds.is_abstract, declared=abstract,
+                 default=repr(ds.default)[:80])
+        if getattr(ds.cache, "name", None) != name:
+            fail(k, "wrong-cache", dataset=name, observed=repr(getattr(ds.cache, "name", type(ds.cache).__name__)))
+
+    def DECOY(ds, abstract, k):
+        """another dataset made by a reused factory: what the factory's own keywords say, no more"""
+        try:
+            got = ("val", ds.evaluate({}))
+        except ns["EvaluationError"] as e:
+            got = ("err", ns["ERRNAME"](e))
+        if ds.is_abstract is not abstract or (got[0] == "err") is not abstract or \
+                (got[0] == "val" and "'decoy'" not in repr(got[1])):
+            fail(k, "reused-factory", observed_is_abstract=ds.is_abstract, factory_abstract=abstract,
+                 evaluates_to=repr(got)[:120])
+
+    ns.update(EVAL=EVAL, CHECK_SNAP=CHECK_SNAP, DECL=DECL, DECOY=DECOY)
     crash = None
     limit0 = sys.getrecursionlimit()
     try:
@@ -1048,6 +1516,43 @@ def run_xcase(xc, want_src=False):
     return res
 
 
+PROBES = [
+    # (what, reading "the last explicit value wins", program; OUT is what is observed)
+    ("options={} on a factory that has options: dataset(dispatch='K', options={'K': 'x'})(f, options={}) under {'K': 'y'}",
+     "no preset options: 'K' is 'y', unregistered -> the default implementation",
+     ["ds = dataset(dispatch='K', options={'K': 'x'})(_f, options={})", "ds.register('x', Value(('ix',)))",
+      "OUT = ds({'K': 'y'})"]),
+    ("default_options={} on a factory that has default options: dataset(dispatch='K', default_options={'K': 'x'})"
+     "(f, default_options={}) under {}",
+     "no default options: 'K' cannot be determined -> the default implementation",
+     ["ds = dataset(dispatch='K', default_options={'K': 'x'})(_f, default_options={})",
+      "ds.register('x', Value(('ix',)))", "OUT = ds({})"]),
+    ("dispatch='' (an empty option key): dataset(dispatch='')(f).overload('x')",
+     "a dataset dispatching on the option key ''",
+     ["ds = dataset(dispatch='')(_f)", "OUT = repr(ds.overloads.dispatch)", "ds.overload('x')"]),
+    ("defaults={} after defaults={'a': ...} (accumulating keyword): dataset(defaults={'a': Option('A', 5)})(g, defaults={})",
+     "unspecified: defaults (like effects, where) accumulate by design; an erasing reading would fail with a TypeError",
+     ["ds = dataset(defaults={'a': Option('A', 5)})(_g, defaults={})", "OUT = ds({})"]),
+]
+
+
+def run_probe():
+    """keyword combinations that are NOT in the violation oracle: what labrea does with them is recorded in the
+    evidence next to the reading the spelling table uses elsewhere"""
+    out = []
+    for what, reading, prog in PROBES:
+        ns = {"re": re}
+        exec(RUNTIME_SRC, ns)
+        exec("def _f():\n    return ('dflt',)\ndef _g(a):\n    return ('dflt', a)\n", ns)
+        try:
+            exec("\n".join(prog) + "\n", ns)
+            seen = repr(ns.get("OUT"))
+        except Exception as e:  # noqa: BLE001
+            seen = "%r, then %s: %s" % (ns.get("OUT"), type(e).__name__, str(e)[:80])
+        out.append({"spelling": what, "last_explicit_value_wins_reading": reading, "observed": seen})
+    return {"obs": "", "fails": [], "probe": out}
+
+
 def runner_main():
     want_src = "--src" in sys.argv
     for line in sys.stdin:
@@ -1056,7 +1561,10 @@ def runner_main():
             continue
         case = json.loads(line)
         try:
-            res = run_xcase(case["x"], want_src) if "x" in case else run_case(case, want_src)
+            if "probe" in case:
+                res = run_probe()
+            else:
+                res = run_xcase(case["x"], want_src) if "x" in case else run_case(case, want_src)
         except Exception as e:  # noqa: BLE001
             res = {"obs": "HARNESS-CRASH %s: %s" % (type(e).__name__, str(e)[:300]), "fails": [],
                    "crash": "%s: %s" % (type(e).__name__, str(e)[:300])}
@@ -1525,6 +2033,106 @@ def exc_direct_cases(seed, thorough):
     return cs
 
 
+SPELL_SHAPES = [(disp, cb) for disp in (["key", "K"], ["keyd", "K", "x"], ["ds", 0], ["missing"]) for cb in (None, 1)]
+
+
+def spelling_case(sid, disp, cb, dkind="leaf"):
+    """the directed history for one spelling: d0 (default implementation: a function the spelling defines, or with
+    dkind "opt" an existing Evaluatable it wraps) and d1 (abstract) are both built by it, then evaluated with a
+    registered / unregistered / undeterminable dispatch value, before and after a late registration; d2 is the
+    same dataset in the plainest spelling (its neighbours must not disturb it)"""
+    A = ("A", {"d": "a0"})
+    impls = [L("dflt", [A, ("B", None)]) if dkind == "leaf" else {"k": "opt", "key": "B", "d": None},
+             L("ix"), L("iy", [A]), L("late"), L("plain", [A])]
+    cb1 = None if cb is None else cb + 1
+    ops = [["new", 0, disp, 0, cb, sid], ["new", 1, disp, None, cb1, sid], ["new", 2, disp, 4, None],
+           ["reg", 0, "x", 1], ["reg", 1, "x", 1], ["reg", 2, "x", 1], ["ovl", [[0, ["y"]], [1, ["y", 1]]], 2]]
+    key = "Q" if disp[0] == "ds" else "K"
+    for o in ({key: "x", "B": 2}, {key: "u", "B": 2}, {"B": 2}, {"A": 1, "B": 3}):
+        ops += [["eval", 0, o], ["eval", 1, o]]
+    ops += [["eval", 0, {key: "y", "B": 2}], ["eval", 1, {key: True}], ["eval", 0, {key: "u", "B": 2}], ["eval", 2, {key: "u"}],
+            ["reg", 0, "u", 3], ["reg", 1, "u", 3],
+            ["eval", 0, {key: "u", "B": 4}], ["eval", 1, {key: "u"}], ["eval", 0, {"B": 4}], ["eval", 1, {}]]
+    return {"impls": impls, "disps": DISPS, "ops": ops}
+
+
+def spelling_cases(seed, thorough):
+    """every spelling of the table x the dataset shapes it applies to (quick: two shapes per spelling, rotating with
+    the seed, one of them with a callback where the spelling can carry one; thorough: all of them)"""
+    cs = []
+    for i, sp in enumerate(SPELLINGS):
+        shapes = [(d, c) for d, c in SPELL_SHAPES if spell_applicable(sp, d[0] != "missing", c is not None)]
+        if thorough:
+            cs += [spelling_case(sp["id"], d, c, dk) for d, c in shapes for dk in ("leaf", "opt")]
+            continue
+        disp = [sh for sh in shapes if sh[0][0] != "missing"]       # (every spelling applies to some of these)
+        first = ([sh for sh in disp if sh[1] is not None] or disp)
+        first = first[(seed + i) % len(first)]
+        rest = [sh for sh in shapes if sh != first and sh[1] is None] or [sh for sh in shapes if sh != first]
+        second = rest[(seed + i) % len(rest)]
+        cs += [spelling_case(sp["id"], first[0], first[1], "leaf"), spelling_case(sp["id"], second[0], second[1], "opt")]
+    return cs
+
+
+def spelling_entry(per, sid):
+    return per.setdefault(sid, {"directed_programs": 0, "datasets": 0, "interface_members": 0,
+                                "nested_implementations": 0, "evaluations": 0, "registered_selected": 0,
+                                "default_used": 0, "evaluation_error": 0, "oracle_failures": 0})
+
+
+def spelling_tally(case, res, per, directed=False):
+    """per spelling: the datasets built by it in this program, their evaluations, and -- read off the property by
+    the reference -- how many selected a registered implementation, used the default implementation because the
+    dispatch value was unregistered or undeterminable, or ended in the evaluation error of an abstract dataset
+    (only evaluations the oracle accepted are counted in these three)"""
+    sp_of = {op[1]: op[5] for op in case["ops"] if op[0] == "new" and len(op) > 5}
+    for sp in case["impls"]:
+        if sp.get("sp") is not None:
+            spelling_entry(per, sp["sp"])["nested_implementations"] += 1
+    for op in case["ops"]:
+        if op[0] == "iface":
+            for m in op[3]:
+                if len(m) > 5:
+                    spelling_entry(per, m[5])["interface_members"] += 1
+                    sp_of[m[1]] = m[5]       # (their evaluations count for the spelling as well)
+    if not sp_of:
+        return
+    for sid in {op[5] for op in case["ops"] if op[0] == "new" and len(op) > 5}:
+        e = spelling_entry(per, sid)
+        e["directed_programs"] += 1 if directed else 0
+        e["datasets"] += sum(1 for op in case["ops"] if op[0] == "new" and len(op) > 5 and op[5] == sid)
+    bad_ops = {f["op"] for f in res["fails"]}
+    for k, op in enumerate(case["ops"]):       # (DECL / DECOY failures sit on the "new" operation)
+        if op[0] == "new" and len(op) > 5 and k in bad_ops:
+            spelling_entry(per, op[5])["oracle_failures"] += 1
+    evs = [(k, op) for k, op in enumerate(case["ops"]) if op[0] == "eval"]
+    obs = [o for o in res["obs"].split(" | ") if o.startswith(("val=", "err="))]
+    if len(evs) != len(obs):
+        raise Infra("C07: %d evaluations, %d observations in %s" % (len(evs), len(obs), json.dumps(case)[:300]))
+    ref = Ref(case)
+    for (k, op), o in zip(evs, obs):
+        if op[1] not in sp_of:
+            continue
+        e = spelling_entry(per, sp_of[op[1]])
+        e["evaluations"] += 1
+        if k in bad_ops:
+            e["oracle_failures"] += 1
+            continue
+        ref.advance(k)
+        dv, impl, selerr = ref.select(op[1], op[2])
+        r = ref.ds[op[1]]
+        if selerr is not None:
+            e["evaluation_error"] += 1 if o.startswith("err=") else 0
+        elif dv[0] == "ok" and dv[1] is not _Missing and dv[1] in r["table"]:
+            e["registered_selected"] += 1 if o.startswith("val=") else 0
+        else:
+            e["default_used"] += 1 if o.startswith("val=") else 0
+
+
+def spelling_of(case):
+    return next(op[5] for op in case["ops"] if op[0] == "new" and len(op) > 5)
+
+
 def exhaustive(depth):
     """every history of `depth` operations over a small alphabet on one dataset, 4 dataset shapes"""
     impls = [L("dflt"), L("i1"), L("i2", [("A", {"d": "a0"})])]
@@ -1582,7 +2190,7 @@ def valid(case):
             elif k == "iface":
                 if op[1] in ifs:
                     return False
-                for name, d, mk, dflt, cb in op[3]:
+                for name, d, mk, dflt, cb in (m[:5] for m in op[3]):
                     if mk == "ext":
                         if d not in ds or d in members:
                             return False
@@ -1829,11 +2437,13 @@ def explore(ctx):
     stats = new_stats()
     main = corpus()
     assert all(valid(c) and not has_trigger(c) for c in main), "corpus must be valid and trigger-free"
-    main += exhaustive(4 if thorough else 3)
+    # (the hand-written corpus keeps the plainest spelling; every other dataset gets one from the table, by its
+    # number and the number of its program -- the random stream is not consumed, the histories are what they were)
+    main += [annotate(c, n, ctx.seed) for n, c in enumerate(exhaustive(4 if thorough else 3))]
     nrand = 9000 if thorough else 700
-    for _ in range(nrand):
+    for n in range(nrand):
         g = CaseGen(rng)
-        c = g.build(rng.randint(3, 15))
+        c = annotate(g.build(rng.randint(3, 15)), n, ctx.seed)
         assert valid(c) and not has_trigger(c)
         main.append(c)
     distinct = {json.dumps(c, sort_keys=True) for c in main}
@@ -1844,11 +2454,29 @@ def explore(ctx):
     xm = exc_model_cases(ctx.seed, thorough)
     xd = exc_direct_cases(ctx.seed, thorough)
     assert all(valid(c) and not has_trigger(c) for c in xm)
-    pool = ThreadPoolExecutor(max_workers=2)
+    sc = spelling_cases(ctx.seed, thorough)
+    assert all(valid(c) and not has_trigger(c) for c in sc)
+    pool = ThreadPoolExecutor(max_workers=5)
+    fut_sc = pool.submit(run_impl_chunks, sc, 2)
+    fut_main = pool.submit(lambda: list(zip(run_impl_chunks(main, 2), run_model(main))))
     fut_xm = pool.submit(run_impl_chunks, xm, 4 if thorough else 2)
     fut_xd = pool.submit(run_impl_chunks, xd, 6 if thorough else 2)
+    fut_pr = pool.submit(run_impl, [{"probe": "factory-keywords"}])
     pool.shutdown(wait=False)
-    sweep(main, "main", findings, stats)
+    # directed family: every spelling of the dataset factories (first: its replays are the smallest)
+    sstats, scoll, mcoll, sper = new_stats(), [], [], {}
+    sweep(sc, "spelling", findings, sstats, max_findings=3, collect=scoll,
+          results=list(zip(fut_sc.result(), run_model(sc))))
+    for c, res in scoll:
+        spelling_tally(c, res, sper, directed=True)
+    if set(sper) != set(SPELL) or not all(e["directed_programs"] and
+                                          (e["oracle_failures"] or (e["default_used"] and e["evaluation_error"]
+                                                                    and e["registered_selected"]))
+                                          for e in sper.values()):
+        raise Infra("C07: the spelling family did not cover every row of the spelling table")
+    sweep(main, "main", findings, stats, collect=mcoll, results=fut_main.result())
+    for c, res in mcoll:
+        spelling_tally(c, res, sper)
     # known finding F24: separate stream, every oracle failure must classify to F24
     trig = trigger_corpus() + trigger_random(rng, 300 if thorough else 40)
     trig = [c for c in trig if valid(c)]
@@ -1883,11 +2511,14 @@ def explore(ctx):
                                        (e["oracle_failures"] or (e["default_used"] and e["evaluation_error"]))
                                        for e in per.values()):
         raise Infra("C07: the dispatch-failure family did not cover every row of the exception table")
-    distinct |= {json.dumps(c, sort_keys=True) for c in xm + xd}
-    nontrivial |= {json.dumps(c, sort_keys=True) for c in xm + xd}
+    distinct |= {json.dumps(c, sort_keys=True) for c in xm + xd + sc}
+    nontrivial |= {json.dumps(c, sort_keys=True) for c in xm + xd + sc}
     samples = [json.dumps(c["ops"])[:600] for c in (main[1], main[6], main[len(corpus()) + 5], main[-1], trig[0])]
     samples += [json.dumps({"disps": xm[0]["disps"], "ops": xm[0]["ops"]})[:700], json.dumps(xd[0]), json.dumps(xd[-1])]
-    for st in (xstats, dstats):
+    samples += [json.dumps(sc[len(sc) // 3]["ops"])[:700],
+                Gen({"impls": sc[len(sc) // 3]["impls"], "disps": DISPS, "ops": sc[len(sc) // 3]["ops"][:2]}).program()]
+    (probe,) = fut_pr.result()
+    for st in (xstats, dstats, sstats):
         for k in ("programs", "evaluations", "compared"):
             stats[k] += st[k]
     cov = {
@@ -1904,6 +2535,28 @@ def explore(ctx):
                          "observations": stats["obs"],
                          "trigger_stream": {"programs": tstats["programs"], "observations": tstats["obs"],
                                             "oracle_failures_attributed_to_F24": tstats["known_seen"]},
+                         "spelling_family": {
+                             "what": "every dataset outside the hand-written corpus is built through one row of the "
+                                     "spelling table (all public ways of configuring dataset / abstractdataset: "
+                                     "decorator, f first, f last, None first, wrap, update, where, nocache, "
+                                     "set_dispatch / set_cache afterwards, several steps, a reused factory, every "
+                                     "keyword also with its None / empty value, abstract given on the agreeing and "
+                                     "on the disagreeing factory); the model is told the folded meaning (last "
+                                     "explicit value wins, None or omitted inherits).  per_spelling is measured on "
+                                     "this run over the directed programs (each row, both abstractnesses) and "
+                                     "the exhaustive / random programs (there also the @dataset / @abstractdataset "
+                                     "members of interfaces and the dispatching datasets used as implementations, "
+                                     "in the rows that need no cache keyword)",
+                             "spellings": len(SPELLINGS),
+                             "directed_programs": sstats["programs"],
+                             "directed_observations": sstats["obs"],
+                             "datasets_built_by_a_spelling": sum(e["datasets"] for e in sper.values()),
+                             "interface_members_built_by_a_spelling": sum(e["interface_members"] for e in sper.values()),
+                             "nested_implementations_built_by_a_spelling": sum(e["nested_implementations"]
+                                                                               for e in sper.values()),
+                             "oracle_failures": sum(e["oracle_failures"] for e in sper.values()),
+                             "per_spelling": sper,
+                             "not_in_the_violation_oracle": probe.get("probe", [])},
                          "dispatch_failure_family": {
                              "what": "a computed dispatch expression fails inside user code with the row's "
                                      "exception; per_class counts are measured on this run: evaluations whose "
@@ -1921,7 +2574,9 @@ def explore(ctx):
                   "object) unless a stored entry is returned; hits keep their dispatch value; callback runs "
                   "exactly once per miss; interface members report one alias; rejected implementations "
                   "leave every member table unchanged; a failing evaluation fails with an EvaluationError; "
-                  "a dispatch expression that fails (any Exception class) selects the default implementation",
+                  "a dispatch expression that fails (any Exception class) selects the default implementation; "
+                  "a dataset is_abstract exactly when declared so, whatever spelling built it, and holds the cache "
+                  "it was given; the other datasets of a reused factory are what the factory's own keywords say",
     }
     return Exploration(findings, cov)
 
@@ -1930,9 +2585,9 @@ def failing_input_search(ctx, why):
     """larger random budget, oracle only"""
     rng = random.Random(ctx.seed + 7919)
     cases = []
-    for _ in range(4000):
+    for n in range(4000):
         g = CaseGen(rng)
-        cases.append(g.build(rng.randint(3, 15)))
+        cases.append(annotate(g.build(rng.randint(3, 15)), n, ctx.seed + 1))
     findings = []
     stats = {"programs": 0, "evaluations": 0, "compared": 0, "ops": {}, "sizes": {}, "obs": {}, "known_seen": 0,
              "more_failures_not_shrunk": 0}
